@@ -445,7 +445,7 @@ def like_deck(rnd, scenario, nsym=3):
 
 
 # ------------------------------------------------------------------ rectangular lattices
-def lattice_deck(rnd, dims=2, nsym=3, variant='array', skew=False, cellform='planes', second=False):
+def lattice_deck(rnd, dims=2, nsym=3, variant='array', skew=False, cellform='planes', second=False, latfilltr=None):
     """container (level 0) filled with universe 5 = one LAT=1 cell whose elements are filled from an array."""
     d = dk.Deck()
     pre = []
@@ -602,6 +602,19 @@ def lattice_deck(rnd, dims=2, nsym=3, variant='array', skew=False, cellform='pla
     d.dot_spelling = rnd.random() < 0.25
     d.fill_shorthand = rnd.random() < 0.4          # 3 3 3 -> 3 2r in the FILL array
     d.opts_order = rnd.randint(1, 10 ** 6) if rnd.random() < 0.5 else None      # cell options in another order
+    if latfilltr and not isinstance(lat.fill, dk.LatFill):
+        # FILL=n (tr) on the LAT cell itself (single universe over the --lattice ranges); 'trcl': a translating TRCL
+        # on the cell as well (it places the cell, the FILL transformation places the content); 'rot': the fill
+        # transformation rotates.  Drawn last: the other draws of the deck are those of the plain family.
+        lat.filltr = rand_tr(rnd, 'lf', pre, budget=bud, rot=(latfilltr == 'rot'))
+        if latfilltr == 'rot' and len(lat.filltr) == 3:
+            lat.filltr = lat.filltr + list(rnd.choice(_rot.quick_set())[1])
+        if all((not hasattr(v, 'vars')) and v == 0 for v in lat.filltr[:3]):
+            lat.filltr[0] = Fr(1, 4)
+        lat.fill = 3                                    # the sphere-in-the-rest universe (u=1 fills all space)
+        lat.trcl = None
+        if latfilltr == 'trcl':
+            lat.trcl = [Fr(0), Fr(1, 5), Fr(0)] if rnd.random() < 0.5 else [Fr(-1, 4), Fr(0), Fr(1, 2)]
     return d, pre
 
 
@@ -614,7 +627,7 @@ HEXAGONS = {
 }
 
 
-def hex_deck(rnd, shape='near-regular', axis='z', dims=2, nsym=2, cellform='planes', second=False):
+def hex_deck(rnd, shape='near-regular', axis='z', dims=2, nsym=2, cellform='planes', second=False, oblique=False):
     """container filled with universe 5 = one LAT=2 cell (hexagonal prism), elements filled from an array."""
     from . import hexref
     d = dk.Deck()
@@ -707,6 +720,11 @@ def hex_deck(rnd, shape='near-regular', axis='z', dims=2, nsym=2, cellform='plan
         if axis == 't':
             d.surfs.append(dk.Surf(7, 'p', list(TILT[2]) + [hi]))
             d.surfs.append(dk.Surf(8, 'p', list(TILT[2]) + [lo]))
+        elif oblique:
+            # an oblique prism: the two end planes are parallel to each other but not orthogonal to the prism axis
+            onrm = to3(Fr(1, 4), Fr(0) if oblique == 'u' else Fr(-1, 2), Fr(1))
+            d.surfs.append(dk.Surf(7, 'p', list(onrm) + [hi]))
+            d.surfs.append(dk.Surf(8, 'p', list(onrm) + [lo]))
         else:
             mn = 'p' + axis
             d.surfs.append(dk.Surf(7, mn, [hi]))
